@@ -140,6 +140,17 @@ def call_function(ex, qualname, args, kwargs, st, n, closure_node=None, self_obj
         return call_contract(ex, alt, bound, st, n)
     if c is not None and not c.inline:
         bound = bind_args(node, allargs, kwargs, ex, st)
+        # typed variants of a contract (target#tag: the same real function verified once more at other element types, e.g. a list of
+        # strings instead of a list of cells): the variant whose list parameters have the element types of the arguments is used
+        def _lpt(v):
+            return v.pt.args[0] if v.pt.kind == 'opt' else v.pt
+
+        def _fits(cc):
+            return all((_lpt(bound[pn]).kind != 'list' or ppt is None or ppt.kind != 'list' or _lpt(bound[pn]) == ppt) for pn, ppt in cc.params if pn in bound)
+        if not _fits(c):
+            for vt, vc in ex.reg.contracts.items():
+                if vt.startswith(qualname + '#') and not vc.inline and _fits(vc):
+                    return call_contract(ex, vc, bound, st, n)
         return call_contract(ex, c, bound, st, n)
     # inline
     if ex.inline_depth > 6:
